@@ -5,8 +5,9 @@ gentie_step(check, ctx) — a pre-step for vlib.core.Check:
   1. builds harness/cmd/owtranslate (go/parser + go/ast + go/constant only) and runs it on core.REPO: the loop body of every
      kernel of its table is translated to Lean (`OW.Gen.K.<goFunc>.{guard,pre,init,step}`) and lean/OW/Gen/Kernels.lean is
      rewritten if (and only if) the text changed;
-  2. `lake build OW.Props.GenTie OW.Props.GenTieReal` — the theorems `gen_eq_<Model>`: regenerated definition = hand-written
-     model's step (all states, all outputs, the pre-loop coefficients and the early-return guard), for every `[Num α]`;
+  2. `lake build OW.Props.GenTie OW.Props.GenTieReal OW.Props.GenTieWhole …` (MODULES) — the theorems `gen_eq_<Model>`:
+     regenerated definition = hand-written model's step (all states, all outputs, the pre-loop coefficients and the
+     early-return guard; for the kernels translated as a whole: the whole run), for every `[Num α]`;
   3. a theorem that no longer checks is returned as a problem
          {"kind": "proof-obligation", "name": "gen_eq_<Model> no longer checks (source of <goFunc> changed)", "detail": …}
      (never raised as an internal error): the orchestrator then lets the behavioural correspondence and the oracle decide,
@@ -32,7 +33,17 @@ from vlib.core import Internal, GOENV, HARNESS, LEAN, BUILD
 
 GEN_LEAN = os.path.join(LEAN, "OW", "Gen", "Kernels.lean")
 TIE_LEAN = os.path.join(LEAN, "OW", "Props", "GenTie.lean")
-MODULES = ["OW.Props.GenTie", "OW.Props.GenTieReal"]
+# the files that state gen_eq_* theorems (all in namespace OW.Props.GenTie); GenTieReal.lean holds corollaries at ℝ;
+# GenTieAll imports all of them (the module whose axioms are audited)
+TIE_FILES = ["GenTie.lean", "GenTieWhole.lean", "GenTieStateful.lean", "GenTieGR4J.lean", "GenTieDates.lean", "GenTieStorage.lean", "GenTieSacramento.lean"]
+MODULES = ["OW.Props.GenTie", "OW.Props.GenTieReal", "OW.Props.GenTieWhole", "OW.Props.GenTieStateful",
+           "OW.Props.GenTieGR4J", "OW.Props.GenTieDates", "OW.Props.GenTieStorage",
+           "OW.Props.GenTieSacramento", "OW.Props.GenTieAll"]
+AUDIT_MODULE = "OW.Props.GenTieAll"
+
+
+def _tie_path(name):
+    return os.path.join(LEAN, "OW", "Props", name)
 
 # theorem of OW/Props/GenTie.lean → (Go functions it ties, property whose check should call gentie_step)
 TIES = {
@@ -68,6 +79,19 @@ TIES = {
     "gen_eq_InstreamDissolvedNutrient": (["instreamDissolvedNutrient"], "C12"),
     "gen_eq_InstreamFineSediment": (["instreamFineSediment"], "C12"),
     "gen_eq_ClimateVariables": (["climateVariables"], "C20"),
+    # GenTieWhole.lean: kernels translated as a whole (series as lists)
+    "gen_eq_Lag": (["lag"], "C11"),
+    "gen_eq_StorageTrapAll": (["storageTrapAll"], "C12"),
+    "gen_eq_InputNode": (["inputNode"], "C16"),
+    # GenTieStateful.lean, GenTieGR4J.lean: helpers with closures / panics / an abstract FindRoot; slices and inner loops
+    "gen_eq_StorageRouting": (["storageRouting"], "C11"),
+    "gen_eq_GR4J": (["gr4j"], "C10"),
+    # GenTieDates.lean: int arithmetic, typed helpers, a constant table, a loop that may panic
+    "gen_eq_DateGenerator": (["dateGenerator"], "C19"),
+    # GenTieStorage.lean: tables, function literals, sub-step loops with fuel, statements after the loop
+    "gen_eq_Storage": (["storageWaterBalance"], "C13"),
+    # GenTieSacramento.lean: rfl against the copy OW/Proofs/SacramentoMid.lean, which is proved equal to the hand model
+    "gen_eq_Sacramento": (["sacramento"], "C10"),
 }
 # auxiliary theorems of GenTie.lean (helper functions of a kernel) are named <theorem>_<helper>: attributed to <theorem>
 # theorems of GenTieReal.lean are corollaries: a failure there is attributed to the GenTie theorem they instantiate
@@ -152,7 +176,7 @@ def run_gentie(ctx=None):
     out = (b.stdout or "") + (b.stderr or "")
     failed = {}
     if b.returncode != 0:
-        tie_thms = _theorem_lines(TIE_LEAN)
+        tie_thms = {f: _theorem_lines(_tie_path(f)) for f in TIE_FILES}
         real_thms = _theorem_lines(os.path.join(LEAN, "OW", "Props", "GenTieReal.lean"))
         gen_ns = [(l, n) for l, n in _namespace_lines(GEN_LEAN) if n != "OW.Gen.K"]
         by_func = {}
@@ -163,8 +187,8 @@ def run_gentie(ctx=None):
         for m in re.finditer(r"error: (?:\./)*([^\s:]+\.lean):(\d+):(\d+): ([^\n]*(?:\n(?!\S*(?:error|warning|info):|[✖✔ℹ⚠]).*)*)", out):
             path, line, msg = m.group(1), int(m.group(2)), m.group(4).strip()
             thms = []
-            if path.endswith("OW/Props/GenTie.lean"):
-                t = _owner(_enclosing(tie_thms, line))
+            if path.endswith(tuple("OW/Props/" + f for f in TIE_FILES)):
+                t = _owner(_enclosing(tie_thms[os.path.basename(path)], line))
                 thms = [t] if t else []
             elif path.endswith("OW/Props/GenTieReal.lean"):
                 t = REAL_OF.get(_enclosing(real_thms, line))
@@ -190,10 +214,10 @@ def gentie_step(check, ctx, only_property=None):
     unsupported = {f: "%s: %s" % (k["status"], k.get("reason", "")) for f, k in status.items() if k["status"] != "ok"}
     pid = only_property or getattr(check, "pid", None)
     mine = [t for t, (_, p) in TIES.items() if p == pid] or list(TIES)
-    known = {n for _, n in _theorem_lines(TIE_LEAN)}
+    known = {n for f in TIE_FILES for _, n in _theorem_lines(_tie_path(f))}
     missing = [t for t in TIES if t not in known]
     if missing:
-        raise Internal("vlib/gentie.py lists theorems that OW/Props/GenTie.lean does not state: " + ", ".join(missing))
+        raise Internal("vlib/gentie.py lists theorems that OW/Props/GenTie*.lean do not state: " + ", ".join(missing))
 
     problems, other = [], []
     for thm in TIES:
@@ -224,7 +248,8 @@ def gentie_step(check, ctx, only_property=None):
     partial = {}
     for f, k in status.items():
         notes = ["abstract helper " + a for a in k.get("abstract_helpers", [])] + \
-                ["branch not translated: " + a for a in k.get("abstract_branches", [])]
+                ["branch not translated: " + a for a in k.get("abstract_branches", [])] + \
+                ["not modelled: " + a for a in k.get("not_modelled", [])]
         if notes and k["status"] == "ok":
             partial[f] = notes
     if partial:
@@ -241,7 +266,7 @@ def gentie_step(check, ctx, only_property=None):
          "theorems_of_this_property": mine, "theorems_failed": sorted(failed), "timing": timing}
     if not failed:
         names = ["OW.Props.GenTie." + t for t in TIES]
-        res, bad, _ = core.audit_axioms("OW.Props.GenTie", names, ctx["workdir"])
+        res, bad, _ = core.audit_axioms(AUDIT_MODULE, names, ctx["workdir"])
         g["axioms"] = sorted({a for n in names for a in res.get(n, [])})
         for n, why in bad:
             problems.append({"kind": "proof-obligation", "name": n, "detail": why})
